@@ -57,10 +57,24 @@ Proof. exact batch_text_each_matches. Qed.
 Print Assumptions C13_text_each_matches_some.
 
 (* tagging changes only the grouping: the tagged and the untagged text of a pattern accept the same strings *)
-Theorem C13_tag_same_language : forall ct e full frags t0 t1 s,
+Theorem C13_tag_same_language : forall out ct e full frags t0 t1 s,
   In e extras8 -> forallb (frag_renderable e) frags = true ->
-  vrle2re false full e false false frags = Ok t0 ->
-  vrle2re false full e false true frags = Ok t1 ->
+  vrle2re out full e false false frags = Ok t0 ->
+  vrle2re out full e false true frags = Ok t1 ->
   re_model_fullmatch ct t0 s = re_model_fullmatch ct t1 s.
 Proof. exact tag_same_language. Qed.
 Print Assumptions C13_tag_same_language.
+
+(* under the portable and grep dialects the patterns are rendered again for output ([0-9] for the digit class):
+   each returned text still matches one of the working examples when their decimal digits are ASCII
+   (without that: Props/C03.v C03_portable_refuted, the known finding c13-portable-digits) *)
+Theorem C13_portable_each_matches_some : forall ct o e stripped gt ex merged rex prex,
+  batch_extract ct o e stripped gt ex = Ok (merged, rex) ->
+  table_ok ct -> 1 <= z_max_strings_in_group o ->
+  batch_oracle_okb ct o e stripped gt ex = true ->
+  batch_renderable ct o e stripped gt ex = true ->
+  mapM (vrle2re true (o_full_escape o) e stripped (o_tag o)) merged = Ok prex ->
+  (forall s, In s (ex_strings ex) -> ascii_decimals ct s) ->
+  forall text, In text prex -> exists s, In s (ex_strings ex) /\ re_model_fullmatch ct text s = Some true.
+Proof. exact batch_portable_each_matches. Qed.
+Print Assumptions C13_portable_each_matches_some.
